@@ -202,7 +202,8 @@ def unit_misc(unit):
                 run("table.T", case, lambda: Table([Vector(list(a)), Vector(list(b))]).T, nt)
     elif what == "assign":
         # every value kind through every key form, single and multi-value
-        values = [v[0] for v in VALS.values()] + [None]
+        # ... and text that LOOKS like a value of another kind (ISO dates, numerals, 'True'): refused or accommodated, never stored raw under the old dtype
+        values = [v[0] for v in VALS.values()] + [None] + ["2020-01-02", "2020-01-02T03:04:05", "2020-01-02 03:04:05", "5", "2.5", "1j", "True", "None", "", b"5"]
         for la, a in P:
             if not a:
                 continue
